@@ -338,6 +338,9 @@ def layout_variants(text, lg, rnd, nrandom):
         if l.strip() and not nxt_body and not (l.rstrip().endswith("=") and " array " in l):
             outl += ["", "# own line"]
     variants["blank_and_comment_lines"] = "\n".join(outl)
+    exotic = ["\x0c", "\x0b", "\x1c", "\x1d", "\x1e", "\x85", "\u2028", "\u2029"]
+    variants["comments_exotic_chars"] = "\n".join((l + " # note" + exotic[i % len(exotic)] + "Vac | 63 " + exotic[(i + 3) % len(exotic)] + "float zz = 1.5" if l.strip() and not body(i) else l)
+                                                  for i, l in enumerate(lines))
     for base in ("comments", "blank_and_comment_lines", "spaces1"):
         variants[base + "_cr"] = variants[base].replace("\n", "\r")
         variants[base + "_crlf"] = variants[base].replace("\n", "\r\n")
@@ -550,6 +553,9 @@ def main():
                 differs, a, bb_ = replay_lex(lg, s, s2)
                 if differs:
                     rep.obligation(name, "violated", witness=[s, s2])
+                    if len(rep.violations) >= U.MAX_REPORTED:
+                        rep.extra["further_candidate_violations_not_reported"] = rep.extra.get("further_candidate_violations_not_reported", 0) + 1
+                        continue
                     rep.violation("%s:%s" % (kind, job[0]), "layout edit changes the emitted tokens: %r -> %r gives %r vs %r" % (s, s2, a, bb_),
                                   REPLAY_LEX % {"root": common.ROOT, "s": s, "s2": s2}, "lex_%s_%d" % (job[0], len(rep.violations)))
                 else:
